@@ -6,6 +6,7 @@ import (
 	crand "crypto/rand"
 	"crypto/sha256"
 	"crypto/sha512"
+	"fmt"
 	"math/big"
 
 	hpke "github.com/cisco/go-hpke"
@@ -204,6 +205,59 @@ func runC07(c *h.Ctx) {
 		mal := append([]byte{}, wire...)
 		sInt.FillBytes(mal[len(mal)-48:])
 		is.evalCase(c, "signature:negated-s", mal)
+	}
+	// issuers as the PUBLIC constructor makes them (the other legs install a seed-derived name key through a hook): every
+	// issuer has its own name key and its own origin registry; a request made for one is refused by every other
+	{
+		var pub []*type3.RateLimitedIssuer
+		for i := 0; i < 3; i++ {
+			is := type3.NewRateLimitedIssuer(rsaKey(0)) // the SAME token key: only name key and registry differ
+			if is == nil {
+				c.Violation("NewRateLimitedIssuer returns nil", nil)
+				continue
+			}
+			pub = append(pub, is)
+		}
+		for i, a := range pub {
+			a.AddOrigin(fmt.Sprintf("only-at-%d.example", i))
+			a.AddOrigin("everywhere.example")
+		}
+		seen := map[string]int{}
+		for i, a := range pub {
+			nk := string(a.NameKey().Marshal())
+			if j, dup := seen[nk]; dup {
+				c.Violation("two independently constructed issuers have the same name key", map[string]any{"issuers": []int{j, i}})
+			}
+			seen[nk] = i
+		}
+		for i, a := range pub {
+			for _, origin := range []string{"everywhere.example", fmt.Sprintf("only-at-%d.example", i)} {
+				st, err := client.CreateTokenRequest(rnd(c, 20), rnd(c, 32), rnd(c, 48), a.TokenKeyID(), a.TokenKey(), origin, a.NameKey())
+				if err != nil {
+					c.Violation("honest request creation failed", map[string]any{"err": err.Error()})
+					continue
+				}
+				wire := st.Request().Marshal()
+				for j, b := range pub {
+					var err error
+					pan, msg := h.Protect(func() { _, _, err = b.Evaluate(wire) })
+					c.Count("constructed-issuers:request-for-i-sent-to-j", 1, fmt.Sprint(i, j, origin))
+					served := !pan && err == nil
+					if pan {
+						c.Violation("Evaluate panics", map[string]any{"panic": msg})
+					} else if served != (i == j) {
+						c.Violation("a request is served exactly by the issuer whose name key it was encrypted to and who registered its origin", map[string]any{"made_for": i, "sent_to": j, "origin": origin, "served": served})
+					}
+				}
+			}
+			// an origin only ANOTHER issuer registered, requested from this one
+			other := fmt.Sprintf("only-at-%d.example", (i+1)%len(pub))
+			if st, err := client.CreateTokenRequest(rnd(c, 20), rnd(c, 32), rnd(c, 48), a.TokenKeyID(), a.TokenKey(), other, a.NameKey()); err == nil {
+				if _, _, err := a.Evaluate(st.Request().Marshal()); err == nil {
+					c.Violation("an issuer serves an origin that only another issuer registered", map[string]any{"issuer": i, "origin": other})
+				}
+			}
+		}
 	}
 	// registered / unregistered origins, near misses
 	names := []string{"dotted.example.", "dotted.example", "dotted.example..", "Mixed.Example", "mixed.example", "MIXED.EXAMPLE", " spaced.example", "spaced.example",
